@@ -115,7 +115,33 @@ PROPS["C19"] = {
     "partial": "",
 }
 
+PROPS["C04"] = {
+    "gen": ["Toast"],
+    "trusted_base": ["`_libtoasty._mid` on IEEE doubles is a parameter of the model: the theorems hold for every midpoint operation, commutativity being the only hypothesis (and only for statements relating two different tiles); that the float routine is the great-circle midpoint and commutes to rounding is measured, not proved",
+                     "spherical areas (toast_tile_area) are float trigonometry: summed and compared numerically (4π per level, parent = Σ children), not proved"],
+    "assumptions": COMMON_ASSUME + ["a tile filter is a deterministic function of the tile"],
+    "partial": "areas and great-circle geometry of `_mid` (floating point)",
+}
+
+PROPS["C05"] = {
+    "gen": ["Toast"],
+    "trusted_base": ["`_mid` is a parameter (commutativity is the only hypothesis); numpy sub-array views `x[:n2, n2:]` are modelled as index arithmetic (row half, column half)",
+                     "containment of a pixel centre in its tile and in the corners' latitude range is a float-geometry statement: measured on all 65536 pixels of sampled tiles, not proved"],
+    "assumptions": COMMON_ASSUME,
+    "partial": "containment / latitude range (floating point)",
+}
+
 LEVEL_TEXT = {
+    "C04": {
+        "text": "The level-1 table, `_div4` and `_subsample` are re-extracted on every run by executing the real functions on symbolic points. Over an arbitrary point type and an arbitrary midpoint operation, kernel-checked for every depth, position and coordinate system: create_single_tile, (filtered) enumeration and the point-lookup descent (for every sequence of choices) all return `tileAt pos` — one tile per position; the filtered enumeration is a sublist of the unfiltered one, which visits every valid position of levels 1..depth exactly once (4^n per level) in the order of the pyramid model; under commutativity of the midpoint the tiles of a level are the cells of one vertex grid, so neighbours share corners and edges, each tile is tiled by its four children whose new corners are the parent's edge midpoints and diagonal midpoint, vertices persist to all deeper levels, and the outer edges of the square are glued pairwise; the level-1 cells are the documented layout (N centre, S corners, longitude 0 right / left); the planetary grid is the astronomical one under the half-turn. The real routes are run on symbolic points against the term model, and on floats (compiled extension and transliterated .pyx) against each other; midpoint, commutativity, areas (4π per level, parent = Σ children) and shared corners are validated numerically.",
+        "note": "trusted: Lean kernel; the symbolic extraction (tables_more.gen_toast, pyx2py); the harness. Areas and the great-circle nature of `_mid` are outside the model (numerical only).",
+        "technique": "Lean 4 proof over an abstract midpoint algebra (tables extracted from source) + symbolic and numeric differential execution",
+    },
+    "C05": {
+        "text": "Kernel-checked for every grid size 2^k, every tile, pixel, orientation and coordinate system: the value `_subsample` (tables extracted from the .pyx text each run) writes at row i, column j of the tile at (n,x,y) is the centre of the `_div4` tile at (n+k, 2^k x+j, 2^k y+i); with k=8 this is the statement of the property; the value is the vertex (2(256x+j)+1, 2(256y+i)+1) of the level-(n+9) grid (one global pixelisation); the level-0 tile's pixels are the level-8 centres. The .pyx recursion is run on symbolic points against the Lean model; toast_tile_get_coords and _level0_coords are compared with centres of deep tiles from create_single_tile; containment and latitude range of pixel centres are measured.",
+        "note": "trusted: Lean kernel; pyx2py transliteration; the harness. Hypothesis: the midpoint commutes (the two subdivisions write mid(ul,ll) vs mid(ll,ul)); measured to hold within 1e-9 rad on floats.",
+        "technique": "Lean 4 proof (induction on the subdivision depth, tables extracted from source) + symbolic and numeric differential execution",
+    },
     "C19": {
         "text": "How the five parallel code paths treat a failing item is re-extracted each run (worker: try/except around the per-item work, set the shared error event, continue the loop; parent: raise after joining when the event is set). Theorems over the hand-off protocol extended with failing callbacks: every execution with failures projects onto a failure-free execution, so the C03 results (all workers exit, queues drained, every item handed to a callback exactly once) carry over; once the parent has finished it has raised exactly when some callback failed — for all workers, items, interleavings and failure sets. The real walk / visit_leaves / transform / multi_tan / multi_wcs are run with a failing item under a deterministic scheduler, with real processes under a watchdog, and serially.",
         "note": "trusted: Lean kernel; multiprocessing semantics; simmp; the source-shape extraction. For the walk, the tile whose callback failed is still reported to the dispatcher, so the protocol of C01 is unchanged.",
